@@ -88,6 +88,7 @@ PROFILES = {
 def random_run(topology, seed, profile, steps, settings=None, max_circuits=3, goals=(1, 2, 3)):
     rng = random.Random(seed * 7919 + 17)
     w = world(topology, seed, settings)
+    w.auto_transports = rng.random() < 0.4
     prof = PROFILES[profile]
     origins = TOPOLOGIES[topology]["origins"]
     names = TOPOLOGIES[topology]["names"]
@@ -129,6 +130,9 @@ def random_run(topology, seed, profile, steps, settings=None, max_circuits=3, go
             add("advcreate")
             add("destroy", bool(known))
             add("mangle", bool(created))
+            pend_socks = w.pending_sockets()
+            if pend_socks and not w.auto_transports:
+                opts.append(("tready", 3))
             alive = [o for o in origins if w.nodes[o].sim_endpoint.is_open()]
             add("vanish", bool(alive) and ncirc > 0)
             joined = [(n, "relay", w.cid(rc)) for n in names for rc in w.ov[n].relay_from_to] + \
@@ -199,6 +203,8 @@ def random_run(topology, seed, profile, steps, settings=None, max_circuits=3, go
                     w.forge_destroy(w.describe(g)["signer"], rng.choice(names), w.describe(g)["cid"], replay_seq=g.seq)
                 else:
                     w.forge_destroy(rng.choice(list(names) + ["adv"]), rng.choice(names), rng.choice(known))
+            elif name == "tready":
+                w.transports_ready(*rng.choice(pend_socks))
             elif name == "vanish":
                 w.vanish(rng.choice(alive))
             elif name == "nodedown":
